@@ -12,6 +12,7 @@ import PdbModel.DriverC11
 import PdbModel.DriverC10
 import PdbModel.DriverC18
 import PdbModel.DriverC17
+import PdbModel.DriverC13
 namespace PdbModel
 
 def parseLevels (t : String) : Option (List ErrorLevel) :=
@@ -49,6 +50,7 @@ def handle (line : String) : String :=
   | "c10" :: rest => (handleC10 rest).getD "BAD-REQUEST"
   | "c18" :: rest => (handleC18 rest).getD "BAD-REQUEST"
   | "c17" :: rest => (handleC17 rest).getD "BAD-REQUEST"
+  | "c13" :: rest => (handleC13 rest).getD "BAD-REQUEST"
   | _ => "BAD-REQUEST"
 
 end PdbModel
